@@ -96,6 +96,9 @@ impl Prop for C07Searches {
     fn cases(&self, tier: Tier) -> u32 {
         tier.pick(1_500, 30_000)
     }
+    fn max_shrink_iters(&self) -> u32 {
+        400
+    }
     fn test(&self, c: &SearchCase, st: &mut Stats) -> TestResult {
         let mut pos = Pos::from_fen(&c.fen).map_err(Failure::new)?;
         pos.half = c.half as u32;
@@ -318,6 +321,9 @@ impl Prop for C08Searches {
     }
     fn cases(&self, tier: Tier) -> u32 {
         tier.pick(640, 16_000)
+    }
+    fn max_shrink_iters(&self) -> u32 {
+        300
     }
     fn test(&self, c: &MinimaxCase, st: &mut Stats) -> TestResult {
         let mut pos = Pos::from_fen(&c.fen).map_err(Failure::new)?;
@@ -593,7 +599,7 @@ impl Prop for C10Generated {
             .boxed()
     }
     fn cases(&self, tier: Tier) -> u32 {
-        tier.pick(60, 1_500)
+        tier.pick(200, 4_000)
     }
     fn test(&self, c: &CountCase, st: &mut Stats) -> TestResult {
         count_once(c, st)
